@@ -127,6 +127,8 @@ func checkC10(w *World, c *Check, tier string) {
 		}
 	}
 
+	checkSplice(w, c, pr, "C10.splice", dedup)
+
 	// ---- Block ----
 	act := w.Method("Activity", "Recipients")
 	if act == nil {
@@ -179,6 +181,33 @@ func checkC10(w *World, c *Check, tier string) {
 			c.bad("C10.block", "removal-precedes-dedup", w.InstrPos(rmCall), "the removal is not followed by the de-duplication")
 		} else {
 			c.ok("C10.block", "removal-precedes-dedup", w.InstrPos(rmCall), "removal is before the de-duplication on every path that contains both")
+		}
+	}
+	// the audience copy handed to the de-duplication must be taken after the removal, or the returned list is
+	// computed from the unfiltered audience
+	if dedupCall != nil {
+		if elems, ok := variadicElems(dedupCall.Common().Args[0]); ok {
+			for _, e := range elems {
+				al, isAlloc := e.(*ssa.Alloc)
+				if !isAlloc {
+					continue
+				}
+				for _, st := range storesTo(al) {
+					ld, isLoad := unwrap(st.Val).(*ssa.UnOp)
+					if !isLoad {
+						continue
+					}
+					if fp, ok := pr.fieldOf(ld); !ok || len(fp.Names) != 1 || fp.Names[0] != "Audience" {
+						continue
+					}
+					before := (ld.Block() != rmCall.Block() && reaches(ld.Block(), rmCall.Block())) || (ld.Block() == rmCall.Block() && instrIndex(ld) < instrIndex(rmCall))
+					if before {
+						c.bad("C10.block", "audience-copy-after-removal", w.InstrPos(ld), "the copy of Audience that is de-duplicated is taken before the Block object's removal: the returned recipients are computed from the unfiltered audience")
+					} else {
+						c.ok("C10.block", "audience-copy-after-removal", w.InstrPos(ld), "the audience is copied after the removal")
+					}
+				}
+			}
 		}
 	}
 	// what is removed derives from a.Object, under the Block guard
@@ -587,4 +616,125 @@ func reachesObjectClean(w *World, fn *ssa.Function, args []AV, objClean *ssa.Fun
 		}
 	}
 	return true, site, ip
+}
+
+// checkSplice: a function that deletes list members in place may only delete, never move: every assignment to
+// the list is the order-preserving splice append(s[:i], s[i+1:]...) (or a plain re-slice), no element slot is
+// overwritten, and — when several collected indices are deleted in one loop — they are processed in descending
+// order (sort.Reverse before the loop), otherwise earlier deletions shift later indices.
+func checkSplice(w *World, c *Check, pr *prover, rule string, f *ssa.Function) {
+	name := funcName(f)
+	n := 0
+	isListPtr := func(v ssa.Value) bool {
+		p, ok := types.Unalias(v.Type()).Underlying().(*types.Pointer)
+		return ok && isItemCollectionType(w, p.Elem())
+	}
+	for _, b := range f.Blocks {
+		for _, in := range b.Instrs {
+			st, ok := in.(*ssa.Store)
+			if !ok {
+				continue
+			}
+			// overwrite of an element slot of an item list that is not freshly made in this function
+			if ia, ok := st.Addr.(*ssa.IndexAddr); ok {
+				if isItemCollectionType(w, ia.X.Type()) || isItemListValue(w, ia.X) {
+					if ld, ok := unwrap(ia.X).(*ssa.UnOp); ok && isListPtr(ld.X) {
+						n++
+						c.bad(rule, name+":element-overwrite", w.InstrPos(st), fmt.Sprintf("%s overwrites an element slot of the caller's list: members may only be deleted, never moved (surviving entries must keep their relative order)", name))
+					}
+				}
+				continue
+			}
+			if !isListPtr(st.Addr) {
+				continue
+			}
+			if _, isParamOrLoad := st.Addr.(*ssa.Alloc); isParamOrLoad {
+				continue // a local list variable
+			}
+			n++
+			key := fmt.Sprintf("%s:list-assign#%d", name, n)
+			if spliceShape(st.Val) {
+				c.ok(rule, key, w.InstrPos(st), "order-preserving splice / re-slice")
+			} else {
+				c.bad(rule, key, w.InstrPos(st), fmt.Sprintf("%s assigns the caller's list something other than the order-preserving splice append(s[:i], s[i+1:]...) or a re-slice", name))
+			}
+		}
+	}
+	// descending order when deleting collected indices
+	usesIndexList := false
+	hasReverse := false
+	for _, call := range callsIn(f) {
+		if cal := call.Common().StaticCallee(); cal != nil && cal.Object() != nil && cal.Object().Pkg() != nil && cal.Object().Pkg().Path() == "sort" {
+			usesIndexList = true
+			if cal.Name() == "Reverse" {
+				hasReverse = true
+			}
+		}
+	}
+	for _, b := range f.Blocks {
+		for _, in := range b.Instrs {
+			if ms, ok := in.(*ssa.MakeSlice); ok {
+				if sl, ok := types.Unalias(ms.Type()).Underlying().(*types.Slice); ok {
+					if bt, ok := sl.Elem().Underlying().(*types.Basic); ok && bt.Kind() == types.Int {
+						usesIndexList = true
+					}
+				}
+			}
+		}
+	}
+	if usesIndexList {
+		if hasReverse {
+			c.ok(rule, name+":descending-indices", w.FuncPos(f), "collected indices are deleted in descending order (sort.Reverse)")
+		} else {
+			c.bad(rule, name+":descending-indices", w.FuncPos(f), name+" deletes several collected indices without processing them in descending order: each deletion shifts the later indices")
+		}
+	}
+}
+
+func isItemListValue(w *World, v ssa.Value) bool {
+	sl, ok := types.Unalias(v.Type()).Underlying().(*types.Slice)
+	return ok && w.itemLikeIface(sl.Elem()) != nil
+}
+
+// spliceShape: append(x[:i], x[i+1:]...) or x[:i] / x[i:] (re-slice) for one list x.
+func spliceShape(v ssa.Value) bool {
+	v = unwrap(v)
+	switch x := v.(type) {
+	case *ssa.Slice:
+		return true
+	case *ssa.Call:
+		bi, ok := x.Common().Value.(*ssa.Builtin)
+		if !ok || bi.Name() != "append" || len(x.Common().Args) != 2 {
+			return false
+		}
+		a, okA := unwrap(x.Common().Args[0]).(*ssa.Slice)
+		b, okB := unwrap(x.Common().Args[1]).(*ssa.Slice)
+		if !okA || !okB || a.Low != nil || a.High == nil || b.High != nil || b.Low == nil {
+			return false
+		}
+		// b.Low == a.High + 1
+		bo, ok := b.Low.(*ssa.BinOp)
+		if !ok || bo.Op != token.ADD {
+			return false
+		}
+		one, ok := bo.Y.(*ssa.Const)
+		if !ok || one.Value == nil || one.Int64() != 1 {
+			return false
+		}
+		if bo.X != a.High {
+			return false
+		}
+		return sameListValue(a.X, b.X)
+	}
+	return false
+}
+
+func sameListValue(a, b ssa.Value) bool {
+	a, b = unwrap(a), unwrap(b)
+	if a == b {
+		return true
+	}
+	la, ok1 := a.(*ssa.UnOp)
+	lb, ok2 := b.(*ssa.UnOp)
+	return ok1 && ok2 && la.X == lb.X
 }
